@@ -36,7 +36,10 @@ VALUES = {"int": ("5", "-3", "42"), "float": ("2.5", "-0.5"), "str": ("'hello'",
           "Optional[int]": ("None", "7"), "Optional[str]": ("None", "'s'"), "List[int]": ("None", "[1, 2]"),
           "Literal['a', 'b']": ("'a'", "'b'")}
 WRAPS = ("Optional[{output_param}]", "Optional[Union[{output_param}, str]]", "List[{output_param}]")
-EVALS = {"VALUE": "[5 * 5, 'x']", "TUP": "('a', 'b', 'c')", "GEN": "tuple(range(3))", "WORDS": "'np tf'.split()"}
+EVALS = {"VALUE": "[5 * 5, 'x']", "TUP": "('a', 'b', 'c')", "GEN": "tuple(range(3))", "WORDS": "'np tf'.split()",
+         # members that compare equal without being the same constant, a repeated member, a single member, mixed kinds
+         "FLAGS": "(0, False, 1, True)", "MODES": "('r', 'w', 'r')", "LEVELS": "[1, True, 2]", "ONE": "('only',)",
+         "MIXED": "(None, 'a', 2.5, -1)"}
 BUDGET_S = {"quick": 400, "thorough": 3000}
 
 
@@ -316,7 +319,7 @@ def run_case(ctx, P, stream, idx):
                 depth -= inner[k] == "]"
                 k += 1
             members = ast.literal_eval("(%s,)" % inner[:k - 1])
-            if list(members) != list(want):
+            if [(type(m_), m_) for m_ in members] != [(type(m_), m_) for m_ in want]:
                 dev("location.eval-members", "Literal members %r != evaluated %r" % (members, want))
             # the wrap template applies in eval mode too: the annotation is the template around that Literal
             literal_text = "Literal[" + inner[:k]
